@@ -48,6 +48,7 @@ type StC struct {
 	NL      int64                       `json:"nl"`
 	NV      int64                       `json:"nv"`
 	Dutch   int64                       `json:"dutch"` // live generation-2 Dutch auctions
+	Eng     []EngRec                    `json:"eng"`   // live generation-2 English (surplus / debt) auctions fed by the same collector
 	Px      int64                       `json:"px"`    // oracle price of the collateral in stable units
 	LsrOn   map[string]bool             `json:"lsrOn"` // locker saving rate of the app's collector lookup is > 0
 	Root    int                         `json:"root"`
@@ -110,12 +111,30 @@ func (w *World) ProjectC() StC {
 	}
 	s.NL = int64(w.App.LockerKeeper.GetIDForLocker(w.Ctx))
 	s.NV = int64(w.App.VaultKeeper.GetIDForVault(w.Ctx))
+	s.Eng = []EngRec{}
 	for _, a := range w.App.NewaucKeeper.GetAuctions(w.Ctx) {
 		if a.AuctionType {
 			s.Dutch++
+			continue
+		}
+		lv, _ := w.App.NewliqKeeper.GetLockedVault(w.Ctx, a.AppId, a.LockedVaultId)
+		if lv.InitiatorType == "surplus" || lv.InitiatorType == "debt" {
+			s.Eng = append(s.Eng, EngRec{ID: int64(a.AuctionId), Kind: lv.InitiatorType, App: appName[a.AppId], Lot: a.CollateralToken.Amount.Int64(),
+				Pay: a.DebtToken.Amount.Int64(), NB: int64(len(a.BiddingIds)), EndT: secs(w, a.EndTime)})
 		}
 	}
 	return s
+}
+
+// EngRec: a live generation-2 English auction as far as the collector book is concerned.
+type EngRec struct {
+	ID   int64  `json:"id"`
+	Kind string `json:"kind"`
+	App  string `json:"app"`
+	Lot  int64  `json:"lot"` // surplus: stable units that leave the collector at the close; debt: gov units minted
+	Pay  int64  `json:"pay"` // debt: stable units that enter the collector at the close
+	NB   int64  `json:"nb"`
+	EndT int64  `json:"endT"`
 }
 
 type runnerC struct {
@@ -180,6 +199,8 @@ func (r *runnerC) execC(w *World, parent int, a string, args map[string]interfac
 		res = map[string]interface{}{"ok": !br.Panic, "panic": br.Panic, "err": trunc(br.Err, 120)}
 	case "SetPrice":
 		w.SetPrice(AssetAtom, uint64(argI(args, "p")))
+	case "EnglishBid":
+		res = resMap(w.BidV2(argS(args, "u"), int64(id), argI(args, "amt"), argS(args, "denom")))
 	case "DutchBid":
 		res = resMap(w.Deliver(&auctionsV2types.MsgPlaceMarketBidRequest{AuctionId: id, Bidder: u, Amount: coin("ucmst", argI(args, "amt"))}))
 	case "LsrChange":
@@ -243,11 +264,49 @@ func DriveC(lg *sim.Log, seed int64, runs, steps int) {
 		if directed {
 			c.Lsr, c.DdN, c.DdD, c.Fund = "0.05", 1, 10, 1000
 		}
+		// combined profile: locker savings (and every other consumer / producer of net fees) run WHILE a generation-2
+		// surplus or debt auction of the same (app, asset) is live, a second app holding fees in the same collector denom
+		combined := k%3 == 1
+		if combined {
+			c.DdN, c.DdD, c.Fund, c.A2 = 1, 10, 1000, 200
+			if k%2 == 0 {
+				c.Sur, c.Lsr, c.ST, c.L = true, "0.25", 20, 10
+			} else {
+				c.Debt, c.Lsr, c.DT, c.L, c.DL = true, "0.05", 60, 10, 20
+			}
+		}
 		w := NewWorld(c)
 		r := &runnerC{lg: lg, run: fmt.Sprintf("drive:%d:%d", seed, k)}
 		cur := r.add(w, 0, "Init", cfgArgs(c), nil)
 		apps := []string{"a1", "a2"}
 		price := int64(2000000)
+		if combined {
+			step := func(a string, m map[string]interface{}) {
+				for k, v := range map[string]interface{}{"u": "", "app": "", "asset": "ucmst", "id": int64(0), "amt": int64(0)} {
+					if _, ok := m[k]; !ok {
+						m[k] = v
+					}
+				}
+				cur = r.execC(w, cur, a, m)
+			}
+			step("VaultCreate", map[string]interface{}{"u": "u1", "app": "a1", "in": int64(450), "out": int64(300)}) // 30 fees in app 1
+			step("VaultCreate", map[string]interface{}{"u": "u2", "app": "a2", "in": int64(450), "out": int64(300)}) // 30 fees in app 2
+			step("CreateLocker", map[string]interface{}{"u": "u3", "app": "a1", "amt": int64(100)})
+			step("Block", map[string]interface{}{"dt": int64(365 * 86400)}) // the auction of app 1 starts; a year of savings is due
+			if st := r.preOf(cur); len(st.Eng) > 0 {
+				au := st.Eng[0]
+				if au.Kind == "surplus" {
+					step("EnglishBid", map[string]interface{}{"u": "u2", "id": au.ID, "amt": int64(7), "denom": "uharbor"})
+				} else {
+					step("EnglishBid", map[string]interface{}{"u": "u2", "id": au.ID, "amt": au.Lot - 2, "denom": "uharbor"})
+				}
+				step("RewardCalc", map[string]interface{}{"u": "u1", "app": "a1", "id": st.Lockers[0].ID}) // savings paid out of app 1's net fees
+				step("Block", map[string]interface{}{"dt": c.A2 + 1})                                      // the auction is due
+				step("Block", map[string]interface{}{"dt": int64(6)})
+				step("VaultCreate", map[string]interface{}{"u": "u3", "app": "a1", "in": int64(450), "out": int64(300)}) // fresh fees
+				step("Block", map[string]interface{}{"dt": int64(6)})
+			}
+		}
 		if directed {
 			// both apps earn fees, several lockers per (app, asset) accrue savings for a year; then the entry points that
 			// touch the books with arguments that do not belong together, and the governance saving-rate changes
@@ -301,6 +360,18 @@ func DriveC(lg *sim.Log, seed int64, runs, steps int) {
 			}
 			if st.Dutch > 0 {
 				wts[13] = 8
+			}
+			if len(st.Eng) > 0 && rng.Pick(4) == 0 {
+				au := st.Eng[rng.Pick(len(st.Eng))]
+				amt := rng.PickI64([]int64{3, 8, 15})
+				if au.Kind == "debt" {
+					amt = au.Lot - rng.PickI64([]int64{1, 4, 9})
+				}
+				if amt < 1 {
+					amt = 1
+				}
+				cur = r.execC(w, cur, "EnglishBid", map[string]interface{}{"u": rng.PickS(Users), "app": "", "asset": "ucmst", "id": au.ID, "amt": amt, "denom": "uharbor"})
+				continue
 			}
 			pickLocker := func() {
 				l := st.Lockers[rng.Pick(len(st.Lockers))]
